@@ -13,6 +13,7 @@ static unsigned w_prop_bit(const char *id) { return !strcmp(id, "C09") ? PC09 : 
 static struct cstl_vector V[2];
 static size_t ES[2]; static int XT[2];
 static char cfgdesc[256];
+static int cur_cfg;      /* selects what the vector objects' storage holds before the init function runs (prefill) */
 
 /* model: per object */
 static struct { size_t es; int xt, ck; size_t size, cap; int vals[MAXSZ + 2]; } M[2];
@@ -42,7 +43,7 @@ static void w_setup(int cfg, int thorough)
 {
     int v, a; const struct cfg *c;
     w_nconfigs(thorough);
-    c = thorough ? &thorough_tab[cfg] : &quick_cfgs[cfg];
+    c = thorough ? &thorough_tab[cfg] : &quick_cfgs[cfg]; cur_cfg = cfg;
     ES[0] = c->es0; XT[0] = c->xt0; ES[1] = c->es1; XT[1] = c->xt1;
     snprintf(cfgdesc, sizeof cfgdesc, "two vectors: %zu-byte elements %s constructor/destructor, %zu-byte elements %s; sizes 0..%d and the boundary arguments", ES[0], XT[0] ? "with" : "without", ES[1], XT[1] ? "with" : "without", MAXSZ);
     w_nops = 0;
@@ -92,12 +93,26 @@ static void dtor(void *obj, void *priv)
     xt_ndtor++;
 }
 
+/* what the storage held before the init function runs on it is an input (the init functions take uninitialised storage): bytes 0xA5, all zero, all ones,
+ * and words that look like small counts -- what a struct that was a vector or a counter block leaves behind (seed C09-7f: a new private member that the
+ * init functions forget to write and a fast path that trusts it when it is small).  The kind rotates with the configuration and the object. */
+static void prefill(void *p, size_t n, int kind)
+{
+    size_t i, w; unsigned char *b = p;
+    switch (kind % 5) {
+    case 0: memset(p, 0xA5, n); break;
+    case 1: w = 3; for (i = 0; i + sizeof w <= n; i += sizeof w) memcpy(b + i, &w, sizeof w); break;
+    case 2: memset(p, 0, n); break;
+    case 3: w = 6; for (i = 0; i + sizeof w <= n; i += sizeof w) memcpy(b + i, &w, sizeof w); break;
+    default: memset(p, 0xFF, n); break;
+    }
+}
 static void w_init(void)
 {
     int v;
     shim_reset();
     for (v = 0; v < 2; v++) {
-        memset(&V[v], 0xA5, sizeof V[v]);
+        prefill(&V[v], sizeof V[v], cur_cfg + v);
         if (XT[v]) cstl_vector_init_complex(&V[v], ES[v], ctor, dtor, &xt_ctx[v]); else cstl_vector_init(&V[v], ES[v]);
         M[v].es = ES[v]; M[v].xt = XT[v]; M[v].ck = v; M[v].size = 0; M[v].cap = 0;
     }
